@@ -63,6 +63,8 @@ func main() {
 		for _, id := range sortedKeys(registry) {
 			fmt.Println(id)
 		}
+	case "trace":
+		os.Exit(cmdTrace(os.Args[2:]))
 	case "genparams":
 		os.Exit(cmdGenParams(os.Args[2:]))
 	case "mutants":
@@ -255,5 +257,28 @@ func cmdGenParams(args []string) int {
 		fmt.Printf("\t%q: {%s},\n", FuncKey(fn), strings.Join(ns, ", "))
 	}
 	fmt.Println("}")
+	return 0
+}
+
+// cmdTrace prints layout traces (debugging aid for transcribing reference sequences).
+func cmdTrace(args []string) int {
+	w, err := Load("/repo/v8", "", "", "")
+	if err != nil {
+		fmt.Fprintln(os.Stderr, err)
+		return 2
+	}
+	for _, a := range args {
+		fn := w.Func(a)
+		if fn == nil {
+			fmt.Println("no function", a)
+			continue
+		}
+		fa := NewFuncAn(w, fn)
+		pkg := a[:strings.Index(a, ".")]
+		ver := `.*\.[vV]ersion|v`
+		fmt.Println("==", a)
+		fmt.Println(" reader:", traceString(readerTrace(fa, readerOps(pkg), ver)))
+		fmt.Println(" writer:", traceString(writerTrace(fa, ver, writerOps(pkg))))
+	}
 	return 0
 }
